@@ -23,7 +23,7 @@ RULE = ('cases = (repository, corruption list, restored snapshot): repositories 
         'corruptions = every stored chunk/snapshot object x {bit flip at boundary offsets (0, nonce-1, nonce, len-17, len-16, len-1) and '
         'sampled offsets, truncation to 0 / <nonce / <tag / len-1, extension, nonce splice, delete, swap with and replay of another '
         'object of the same and of the other kind, copy under a new name / another tag}, singly and in random pairs, plus config damage '
-        '(oracle only); non-trivial = the corruption touches an object the restored snapshot needs (the model predicts an error) ; '
+        'and a snapshot-table ciphertext stored as the chunk that backs up that snapshot\'s data ciphertext (oracle only); non-trivial = the corruption touches an object the restored snapshot needs (the model predicts an error) ; '
         'distinct = distinct (repository id, corruption list, target)')
 
 ERR_CODE = {0: 'Ok', 1: 'Corrupted', 2: 'DecryptFail', 3: 'Missing', 4: 'Malformed'}
@@ -137,6 +137,8 @@ def apply_concrete(orig, objects, spec):
         objects[o] = orig[o][:12] + orig[spec['p']][12:]
     elif k == 'copy':
         objects[spec['new']] = orig[o]
+    elif k == 'put':
+        objects[o] = unb64(spec['data'])
     else:
         raise ValueError(k)
 
@@ -384,6 +386,40 @@ def config_cases(rng, repo, n):
     return out
 
 
+def self_backup_repo(rng, scratch, rid, cipher):
+    """A repository that contains a backup of one of its own snapshot ciphertexts.  The chunk table of a snapshot is
+    encrypted under FastKdf(SharedKey, Hash(data ciphertext)) - the very key a CHUNK whose contents are that data
+    ciphertext gets - so the table ciphertext authenticates when stored as that chunk; only the re-hash of the
+    plaintext rejects it.  Oracle-only case (the symbolic lifting does not identify a file's bytes with a ciphertext)."""
+    src = Path(scratch) / f'src-{rid}'
+    be = MemBackend()
+    pw = b'self backup ' + str(rid).encode()
+    cl = repolab.Client(be, password=pw)
+    assert cl.init(repolab.settings_for(cipher, chunking={'min_length': 8192, 'max_length': 16384})).ok
+    files1 = repolab.make_tree(rng, src / 'a', 2, maxlen=300)
+    s1 = cl.snapshot([src / 'a'])
+    assert s1.ok, s1.detail
+    rr = refreader.RefReader(be.objects['config'])
+    key = rr.open_key(cl.key, pw)
+    body = refreader.parse_json(be.objects[s1.value.location])
+    ed, table_ct = body['data'], body['chunks']
+    (src / 'b').mkdir(parents=True)
+    x = src / 'b' / 'copy-of-snapshot-data.bin'
+    x.write_bytes(ed)
+    s2 = cl.snapshot([src / 'b'])
+    assert s2.ok, s2.detail
+    loc = rr.chunk_path(key, rr.hash(ed))
+    shutil.rmtree(src, ignore_errors=True)
+    if loc not in be.objects:
+        return None, None
+    repo = {'rid': rid, 'cipher': list(cipher), 'hashing': None, 'backend': 'mem', 'password': b64(pw), 'key': b64(cl.key),
+            'objects': {n: b64(d) for n, d in sorted(be.objects.items())},
+            'snapshots': [{'name': s1.value.name, 'location': s1.value.location, 'files': {p: b64(d) for p, d in files1.items()}},
+                          {'name': s2.value.name, 'location': s2.value.location, 'files': {str(x.resolve()): b64(ed)}}]}
+    case = {'specs': [{'k': 'put', 'o': loc, 'data': b64(table_ct)}], 'target_loc': s2.value.location, 'target': s2.value.name, 'oracle_only': True}
+    return repo, case
+
+
 # --------------------------------------------------------------------------- comparison
 def expected_tree(snapshot):
     return {repolab.restored_rel(p): unb64(d) for p, d in snapshot['files'].items()}
@@ -483,6 +519,10 @@ def run(ctx) -> Report:
             cases = cases[::3]
         cases += config_cases(ctx.rng, repo, ctx.scale(6, 40))
         check_repo(ctx, rep, repo, cases)
+    for j, cipher in enumerate([('aes_gcm', None), ('chacha20_poly1305', None)]):
+        repo, case = self_backup_repo(ctx.rng, ctx.scratch, 50 + j, cipher)
+        if repo is not None:
+            check_repo(ctx, rep, repo, [case], with_model=False)
     return rep
 
 
